@@ -7,7 +7,7 @@ from __future__ import annotations
 import numpy as np
 
 OPS = ["neg", "add", "addself", "transpose", "flip", "rechunk", "sum0", "sum1", "index", "matmul",
-       "unstack_stack", "concat", "mean0", "cumsum", "store", "astype", "mul3", "max_all_bcast", "where3"]
+       "unstack_stack", "concat", "mean0", "cumsum", "store", "astype", "mul3", "max_all_bcast", "where3", "sq_flip", "sq_sum", "sq_slice"]
 
 
 def gen_dag_program(rng, n_steps=None):
@@ -21,7 +21,7 @@ def gen_dag_program(rng, n_steps=None):
     nvals = n_in
     weights = {"neg": 5, "add": 6, "addself": 2, "transpose": 2, "flip": 1, "rechunk": 2, "sum0": 2, "sum1": 2, "index": 2,
                "matmul": 1, "unstack_stack": 1, "concat": 1, "mean0": 1, "cumsum": 1, "store": 1, "astype": 1, "mul3": 2,
-               "max_all_bcast": 1, "where3": 3}
+               "max_all_bcast": 1, "where3": 3, "sq_flip": 2, "sq_sum": 2, "sq_slice": 2}
     names = list(weights)
     for _ in range(n_steps):
         op = rng.choices(names, [weights[k] for k in names])[0]
@@ -82,6 +82,12 @@ def numpy_values(prog):
             v = a + a.max()
         elif op == "where3":
             v = np.where(a > 20, (-b).astype("int8"), (-c).astype("int8")).astype("int64")
+        elif op == "sq_flip":
+            v = a[::-1, :] * a[::-1, :]
+        elif op == "sq_sum":
+            v = a + a.sum(axis=0, keepdims=True) * a.sum(axis=0, keepdims=True)
+        elif op == "sq_slice":
+            v = np.concatenate([a[1:, :] * a[1:, :], b[:1, :]], axis=0)
         vals.append(v)
     return vals
 
@@ -155,6 +161,16 @@ def build(prog, spec, store_dir=None):
             # (the condition is a plain in-memory input: a non-fusable first argument)
             mask = xp.asarray(numpy_values_cache(prog)[st["a"]] > 20, chunks=tuple(st["chunks"]), spec=spec)
             v = xp.astype(xp.where(mask, xp.astype(xp.negative(b), xp.int8), xp.astype(xp.negative(c), xp.int8)), xp.int64)
+        elif op == "sq_flip":
+            # the same array twice, produced by an op whose key function yields a STREAM of blocks (selection)
+            f = xp.flip(a, axis=0)
+            v = xp.multiply(f, f)
+        elif op == "sq_sum":
+            r = xp.sum(a, axis=0, keepdims=True)   # reduction: stream of blocks
+            v = xp.add(a, xp.multiply(r, r))
+        elif op == "sq_slice":
+            sl = a[1:, :]
+            v = xp.concat([xp.multiply(sl, sl), b[:1, :]], axis=0)
         vals.append(v)
     return vals
 
